@@ -705,9 +705,72 @@ fn serde_json_from(s: &str) -> Result<Value, ()> {
     serde_json::from_str::<Value>(s).map_err(|_| ())
 }
 
+/// Totality at the boundary operands, systematically (not left to what random programs happen to
+/// compute): every instruction shape is performed on every combination of boundary operands from
+/// the pools (ints: all pairs, and all triples for the three-operand instruction; floats: all
+/// pairs; booleans: all pairs) with roomy stacks, and - for the single-operand view - also as the
+/// only instruction of a program that is run to completion. Never a panic; an error only
+/// recoverable (skipped) - with room everywhere nothing can overflow.
+fn operand_sweep(rep: &mut Report) {
+    use crate::pushvm::{all_shapes, to_real_instr, FLOAT_POOL, INT_POOL};
+    use push::instruction::Instruction;
+    let mut inputs = BTreeMap::new();
+    inputs.insert("x".to_string(), InVal::I(i64::MIN));
+    for shape in all_shapes() {
+        let (reads, _) = shape.io();
+        let n_int = reads.iter().filter(|(t, _)| *t == Ty::Int).map(|(_, n)| *n).sum::<usize>();
+        let n_float = reads.iter().filter(|(t, _)| *t == Ty::Float).map(|(_, n)| *n).sum::<usize>();
+        let n_bool = reads.iter().filter(|(t, _)| *t == Ty::Bool).map(|(_, n)| *n).sum::<usize>();
+        let int_tuples: Vec<Vec<i64>> = match n_int {
+            0 => vec![vec![5, 6, 7]],
+            1 => INT_POOL.iter().map(|a| vec![9, 9, *a]).collect(),
+            2 => INT_POOL.iter().flat_map(|a| INT_POOL.iter().map(move |b| vec![9, *b, *a])).collect(),
+            _ => INT_POOL.iter().flat_map(|a| INT_POOL.iter().flat_map(move |b| INT_POOL.iter().map(move |c| vec![*c, *b, *a]))).collect(),
+        };
+        let float_tuples: Vec<Vec<f64>> = match n_float {
+            0 => vec![vec![1.5, 2.5]],
+            1 => FLOAT_POOL.iter().map(|a| vec![0.5, *a]).collect(),
+            _ => FLOAT_POOL.iter().flat_map(|a| FLOAT_POOL.iter().map(move |b| vec![*b, *a])).collect(),
+        };
+        let bool_tuples: Vec<Vec<bool>> = if n_bool == 0 { vec![vec![true, false]] } else { vec![vec![false, false], vec![false, true], vec![true, false], vec![true, true]] };
+        let name = shape.name();
+        let real = to_real_instr(&shape);
+        for ints in &int_tuples {
+            for floats in &float_tuples {
+                for bools in &bool_tuples {
+                    let m = MState {
+                        exec: vec![MP::I(MI::Noop), MP::Block(vec![MP::I(MI::PushInt(3))]), MP::Block(vec![])],
+                        int: ints.clone(),
+                        float: floats.clone(),
+                        boolean: bools.clone(),
+                        caps: [64, 64, 64, 64],
+                        stdout: String::new(),
+                        step_limit: 50,
+                        inputs: inputs.clone(),
+                    };
+                    let Ok(st) = build_real(&m) else { continue };
+                    rep.eval();
+                    rep.count("operand-sweep");
+                    let verdict = match catch(|| real.perform(st)) {
+                        Err(p) => Some(("panic", p.to_string())),
+                        Ok(Ok(_)) => None,
+                        Ok(Err(e)) if e.is_recoverable() => None,
+                        Ok(Err(e)) => Some(("fatal-without-full-destination", format!("{:?}", e.error()))),
+                    };
+                    if let Some((what, text)) = verdict {
+                        rep.violation(format!("C03/{name}/{what}"), || json!({"origin": "boundary operand sweep", "instruction": name, "int_stack_bottom_first": ints, "float_stack_bottom_first": floats.iter().map(|f| format!("{f:?}")).collect::<Vec<_>>(), "bool_stack_bottom_first": bools, "every_stack_has_room_for": 64, "observed": text}));
+                    }
+                }
+            }
+        }
+        rep.distinct(fnv_str(&format!("sweep-{name}")));
+    }
+}
+
 pub fn run(args: &Args) -> i32 {
     let mut rep = Report::new();
     metered(&mut rep);
+    operand_sweep(&mut rep);
     let shards = 64;
     let per = args.tier.pick(600, 12_000);
     let grid_programs = args.tier.pick(6, 60);
